@@ -258,7 +258,20 @@ func (g *gen) genOpt(pi *progInfo, n *nodeInfo, used map[string]bool, env *[]Env
 				" ", "\t", " x ", "010", "0755", "1_000", "0b101", "+7", "-0", "false\n",
 				// a value that contains the separator of the environment block
 				"a=b", "k=v=w", "=", "12=3", "True=1", "x=", "=true", "1.5=2"}
-			*env = append(*env, EnvKV{K: en, V: g.pick(vals)})
+			val := g.pick(vals)
+			if g.p(0.08) {
+				// the text the help shows for the default (quoted for strings, six decimals for floats): it is not the
+				// default value itself
+				switch op.Kind {
+				case KStr, KStrOpt:
+					val = "\"" + op.DefS + "\""
+				case KFlt, KFltOpt:
+					val = strconv.FormatFloat(op.DefF, 'f', 6, 64)
+				case KInt, KIntOpt:
+					val = strconv.Itoa(op.DefI)
+				}
+			}
+			*env = append(*env, EnvKV{K: en, V: val})
 		}
 	}
 	if g.p(0.08) {
